@@ -221,6 +221,8 @@ type e2eNode struct {
 	mgr    datatransfer.Manager
 	val    *dbl.Validator
 	sent   *sentLog
+	// sent logs of earlier manager lifetimes of this node
+	oldSent []*sentLog
 
 	// configurer, if set, is registered for the voucher type on every manager lifetime
 	configurer datatransfer.TransportConfigurer
@@ -266,6 +268,9 @@ func (n *e2eNode) start(t fataler, ctx context.Context) {
 	gsCtx, cancel := context.WithCancel(ctx)
 	n.gsStop = cancel
 	n.gs = gsimpl.New(gsCtx, gsnet.NewFromLibp2pHost(n.host), n.lsys)
+	if n.sent != nil {
+		n.oldSent = append(n.oldSent, n.sent)
+	}
 	n.sent = &sentLog{DataTransferNetwork: dtnet.NewFromLibp2pHost(n.host, dtnet.RetryParameters(0, 0, 0, 0))}
 	n.net = n.sent
 	n.tr = gstransport.NewTransport(n.host.ID(), n.gs)
@@ -302,6 +307,18 @@ func (n *e2eNode) start(t fataler, ctx context.Context) {
 func (n *e2eNode) restartProcess(t fataler, ctx context.Context) {
 	n.stop()
 	n.start(t, ctx)
+}
+
+// completeSentInEarlierLifetime reports whether an earlier manager lifetime of this node sent an un-paused Complete.
+func (n *e2eNode) completeSentInEarlierLifetime(to peer.ID, tid datatransfer.TransferID) bool {
+	for _, l := range n.oldSent {
+		for _, s := range l.snapshot() {
+			if resp, ok := s.Msg.(datatransfer.Response); ok && !s.Msg.IsRequest() && resp.IsComplete() && !resp.IsPaused() && s.To == to && s.Msg.TransferID() == tid && s.Err == nil {
+				return true
+			}
+		}
+	}
+	return false
 }
 
 func (n *e2eNode) stop() {
